@@ -1,12 +1,12 @@
 import Goyang.Lemmas.IncludeConv
-import Goyang.Lemmas.IncludeAsm
+import Goyang.Lemmas.IncludeAsmN
 /-
 C13 (third sentence), part 6: the forests after conversion, and `processAll`.
 -/
 namespace Goyang.Lemmas.IncludeMain
 open Goyang.Model Goyang.Spec.Include Goyang.Lemmas.Tree Goyang.Spec.Tree Goyang.Lemmas.IncludeRel
 open Goyang.Lemmas.IncludePure Goyang.Lemmas.IncludeRun Goyang.Lemmas.IncludeAsm Goyang.Lemmas.IncludeWorld
-open Goyang.Lemmas.IncludeMod Goyang.Lemmas.IncludeConv
+open Goyang.Lemmas.IncludeMod Goyang.Lemmas.IncludeModN Goyang.Lemmas.IncludeConv
 
 /-! ### forests -/
 
@@ -44,7 +44,7 @@ theorem wu_ok : (Wu R opts plug).OK :=
 
 include h hlink in
 theorem ws_ok : (Ws s R R' opts plug).OK :=
-  Ws_ok opts plug h.text h.regs (IncludeLink.linkAll_split s R R' h.text h.regs hlink).2 h.visible h.plugOK h.pos' h.refs' h.fuel'
+  Ws_ok opts plug h.text h.regs (IncludeLinkN.linkAll_splitN s R R' h.text h.regs hlink).2 h.visible h.plugOK h.pos' h.refs' h.fuel'
 
 theorem mkeys_eq_keyOrder (hr : RegsOK s R R') : keyOrder R = mkeysOf R := by
   rw [keyOrder_eq, skeys_R hr, List.append_nil]
@@ -56,6 +56,60 @@ theorem vm_shape : ∀ c, Clean (vm s R opts plug c) → c.kw ∈ nameKws → (v
   have hk' : c.kw ≠ "uses" ∧ c.kw ≠ "grouping" ∧ c.kw ≠ "module" ∧ c.kw ≠ "submodule" := by
     refine ⟨?_, ?_, ?_, ?_⟩ <;> (intro e; rw [e] at hk; revert hk; decide)
   exact val_name _ _ _ _ _ hc hk'.1 hk'.2.1 hk'.2.2.1 hk'.2.2.2
+
+omit hlink in
+include h in
+/-- The hypotheses of the combinatorial part, from the texts and the registries. -/
+theorem nestOK : NestOK (vm s R opts plug) s.m.stmt s.owner.stmt (s.subs.map (·.stmt)) (tgtOf R') where
+  shape := vm_shape opts plug
+  okw := h.text.owner_kw
+  skw := by
+    intro X hX
+    obtain ⟨sb, hsb, rfl⟩ := List.mem_map.1 hX
+    exact h.text.sub_kw sb hsb
+  body := by
+    intro kw hkw
+    have := h.text.body kw hkw
+    unfold Split.parts at this
+    simpa [List.flatMap_map] using this
+  devO := h.text.kept "deviation" (by decide)
+  devS := by
+    intro X hX
+    obtain ⟨sb, hsb, rfl⟩ := List.mem_map.1 hX
+    exact (h.text.sub_no_aug sb hsb).2.1
+  descO := h.text.kept "description" (by decide)
+  argO := h.text.owner_arg
+  mkw := h.text.m_kw
+  names := by
+    rw [List.map_map]
+    exact h.regs.sub_names_nodup
+  tgt_sub := by
+    intro X hX Y hY
+    have hP : ∃ P ∈ s.parts, X = P.stmt := by
+      rcases List.mem_cons.1 hX with rfl | hX
+      · exact ⟨s.owner, List.mem_cons_self .., rfl⟩
+      · obtain ⟨sb, hsb, rfl⟩ := List.mem_map.1 hX
+        exact ⟨sb, List.mem_cons_of_mem _ hsb, rfl⟩
+    obtain ⟨P, hP, rfl⟩ := hP
+    unfold tgtOf at hY
+    obtain ⟨a, ha, hfa⟩ := List.mem_filterMap.1 hY
+    obtain ⟨sb, hsb, hf⟩ := h.regs.inc_resolve P hP a ha
+    rw [hf] at hfa
+    simp only [Option.map_some, Option.some.injEq] at hfa
+    rw [← hfa]
+    exact List.mem_map_of_mem hsb
+  cover := by
+    intro Y hY
+    obtain ⟨sb, hsb, rfl⟩ := List.mem_map.1 hY
+    have hreach := h.regs.inc_cover sb hsb
+    clear hsb hY
+    induction hreach with
+    | refl => exact .refl _
+    | step _ hinc ih =>
+      obtain ⟨a, ha, hf⟩ := hinc
+      refine .step ih ?_
+      unfold tgtOf
+      exact List.mem_filterMap.2 ⟨a, ha, by rw [hf]; rfl⟩
 
 include h hlink in
 /-- **The forests after the conversion stage.**  When the unsplit conversion is error free, so is the
@@ -70,7 +124,6 @@ theorem conv_split (hclean : forestErrs (forest0 R opts plug) = []) :
       ∃ t', (forest0 R' opts plug).tree? s.m.seq = some t' ∧ SameTop s.σ t' t) := by
   have hr := h.regs
   have hU := conv_unsplit R opts plug (wu_ok opts plug h) hr.R_modules_only
-  have hS := conv_split_state opts plug h.text hr (IncludeLink.linkAll_split s R R' h.text hr hlink).2 (ws_ok opts plug h hlink)
   rw [mkeys_eq_keyOrder hr] at hU
   have hcleanU : ∀ p ∈ (tstate R opts plug).cache, Clean p.2 := (forestErrs_nil_iff _).1 hclean
   -- every module's unsplit entry is the pure fold, error free
@@ -87,23 +140,54 @@ theorem conv_split (hclean : forestErrs (forest0 R opts plug) = []) :
     intro X hX
     obtain ⟨e, he⟩ := hU.cached X hX
     exact (hpm X hX e he).2
-  -- the unsplit module
+  -- the unsplit module: the combinatorial part
   have hmk := m_mem_mkeys hr
-  have hAsm := assembly (envOf R opts plug) (vm s R opts plug) s h.text (vm_shape opts plug) (hpmC s.m hmk)
-  obtain ⟨a1, a2, a3, a4, a5, _, a7, _⟩ := hAsm
+  have hN := nestOK opts plug h
+  have hFl : (s.subs.map (·.stmt)).length < entryFuel R' := by
+    have := unstarted_lt_entryFuel hr
+    have h1 : unstarted s [] = s.subs.length := by
+      unfold unstarted
+      simp
+    rw [List.length_map]; omega
+  have hAsm := assemblyN (envOf R opts plug) (vm s R opts plug) s.m s.m.stmt s.owner.stmt (s.subs.map (·.stmt)) (tgtOf R')
+    hN (hpmC s.m hmk) (entryFuel R') hFl
+  obtain ⟨a1, a3, a4, a5, a6, a7, a8, a9⟩ := hAsm
+  have hall : ∀ sb ∈ s.subs, (pp s R R' opts plug (entryFuel R') [] s.owner.stmt).2.contains sb.name = true := by
+    intro sb hsb
+    rw [List.contains_iff_mem]
+    exact a9 sb.stmt (List.mem_map_of_mem hsb)
+  have hS := conv_split_state opts plug h.text hr (IncludeLinkN.linkAll_splitN s R R' h.text hr hlink).2 (ws_ok opts plug h hlink) hall
+  -- the entries of the parts are error free
+  have hpure : ∀ p, PureOf s R R' opts plug p → Clean p.2 := by
+    rintro p ⟨Q, hQ, _, f', S', hn, hQS, hfu, hre⟩
+    have hcl := ppart_clean (envOf R opts plug) (vm s R opts plug) s.m s.m.stmt s.owner.stmt (s.subs.map (·.stmt)) (tgtOf R')
+      hN (hpmC s.m hmk) f' S' Q.stmt (List.mem_cons_of_mem _ (List.mem_map_of_mem hQ))
+      (fun n hn' => by
+        obtain ⟨sb, hsb, hsn⟩ := hn n hn'
+        exact ⟨sb.stmt, List.mem_map_of_mem hsb, hsn⟩)
+      (fun _ => List.contains_iff_mem.1 hQS)
+      (by
+        have : ((s.subs.map (·.stmt)).filter fun Y => !S'.contains Y.arg).length = unstarted s S' := by
+          unfold unstarted
+          rw [List.filter_map, List.length_map]
+          rfl
+        rw [this]; exact hfu)
+    have := hre.2 hcl
+    exact (clean_ren s.σ _).1 (this ▸ hcl)
   -- the split cache is error free and what it should be
   have hSC : ∀ p ∈ (tstate R' opts plug).cache, Clean p.2 ∧
       ((∃ x ∈ mkeysOf R, x.seq ≠ s.m.seq ∧ x.seq = p.1 ∧ ren s.σ p.2 = pmodOf R opts plug x) ∨
-       (p.1 = s.owner.seq ∧ ren s.σ p.2 = powner (envOf R opts plug) (vm s R opts plug) s.m s.owner.stmt (s.subs.map (·.stmt))) ∨
+       (p.1 = s.owner.seq ∧ ren s.σ p.2 = (pp s R R' opts plug (entryFuel R') [] s.owner.stmt).1) ∨
        (∃ sb ∈ s.subs, p.1 = sb.seq)) := by
     intro p hp
-    rcases hS.cache p hp with ⟨x, hx, h1, h2, h3⟩ | ⟨h1, h2⟩ | ⟨sb, hsb, h1, h2⟩
+    rcases hS.cache p hp with ⟨x, hx, h1, h2, h3⟩ | ⟨h1, h2⟩ | hpo
     · have := h3.2 (hpmC x hx)
       exact ⟨(clean_ren s.σ _).1 (this ▸ hpmC x hx), Or.inl ⟨x, hx, h1, h2, this⟩⟩
     · have := h2.2 a1
       exact ⟨(clean_ren s.σ _).1 (this ▸ a1), Or.inr (Or.inl ⟨h1, this⟩)⟩
-    · have := h2.2 (a2 sb hsb)
-      exact ⟨(clean_ren s.σ _).1 (this ▸ a2 sb hsb), Or.inr (Or.inr ⟨sb, hsb, h1⟩)⟩
+    · have hcl := hpure p hpo
+      obtain ⟨Q, hQ, hpQ, _⟩ := hpo
+      exact ⟨hcl, Or.inr (Or.inr ⟨Q, hQ, hpQ⟩)⟩
   refine ⟨(forestErrs_nil_iff _).2 (fun p hp => (hSC p hp).1), ?_, ?_, ?_⟩
   · intro x hx hne t ht
     have hmem : (x.seq, t) ∈ (tstate R opts plug).cache := tree?_mem ht
@@ -138,32 +222,30 @@ theorem conv_split (hclean : forestErrs (forest0 R opts plug) = []) :
     rcases (hSC _ hmem').2 with ⟨x', hx', h1', h2, _⟩ | ⟨_, h3⟩ | ⟨sb, hsb, h1'⟩
     · exact absurd h2 h1'
     · rw [ht', pmodOf_m]
-      -- from `ren σ t' = powner` and the assembly
-      have hd : renD s.σ t'.d = (powner (envOf R opts plug) (vm s R opts plug) s.m s.owner.stmt (s.subs.map (·.stmt))).d := by
-        rw [← h3, ren_d]
-      have hdir : renL s.σ t'.dir = (powner (envOf R opts plug) (vm s R opts plug) s.m s.owner.stmt (s.subs.map (·.stmt))).dir := by
-        rw [← h3, ren_dir, renL_eq_map]
+      have h3' : ren s.σ t' = (ppart (envOf R opts plug) (vm s R opts plug) s.m (tgtOf R') (entryFuel R') [] s.owner.stmt).1 := h3
+      have hd : renD s.σ t'.d = (ppart (envOf R opts plug) (vm s R opts plug) s.m (tgtOf R') (entryFuel R') [] s.owner.stmt).1.d := by
+        rw [← h3', ren_d]
+      have hdir : renL s.σ t'.dir = (ppart (envOf R opts plug) (vm s R opts plug) s.m (tgtOf R') (entryFuel R') [] s.owner.stmt).1.dir := by
+        rw [← h3', ren_dir, renL_eq_map]
       have hinp : t'.inp = [] := by
-        have : (ren s.σ t').inp = [] := by rw [h3]; exact a5
+        have : (ren s.σ t').inp = [] := by rw [h3']; exact a5
         rw [ren_inp] at this
         exact List.map_eq_nil_iff.1 this
       have hout : t'.out = [] := by
-        have : (ren s.σ t').out = [] := by rw [h3]; exact a7
+        have : (ren s.σ t').out = [] := by rw [h3']; exact a7
         rw [ren_out] at this
         exact List.map_eq_nil_iff.1 this
-      refine ⟨?_, ?_, ?_, ?_⟩
+      refine ⟨?_, ?_, ⟨hinp, a6⟩, ⟨hout, a8⟩⟩
       · unfold SameData at a4 ⊢
         rw [a4] at hd
         generalize (pmod (envOf R opts plug) (vm s R opts plug) s.m s.m.stmt).d = dm at hd ⊢
-        generalize (powner (envOf R opts plug) (vm s R opts plug) s.m s.owner.stmt (s.subs.map (·.stmt))).d = dp at hd
+        generalize (ppart (envOf R opts plug) (vm s R opts plug) s.m (tgtOf R') (entryFuel R') [] s.owner.stmt).1.d = dp at hd
         cases hx : t'.d
         cases dm
         simp only [hx, renD, EData.mk.injEq] at hd ⊢
         obtain ⟨h1, h2, h3, h4, h5, h6, h7, h8, h9, h10, h11, h12, h13, h14, h15, h16, h17, h18, h19⟩ := hd
         exact ⟨h1, h2, h3, h4, h5, h6, h7, h8, h9, h10, h11, h12, h13, h14, trivial, trivial, h17, h18, h19⟩
       · rw [hdir]; exact a3
-      · exact ⟨hinp, by assumption⟩
-      · exact ⟨hout, by assumption⟩
     · exact absurd h1'.symm (hr.sub_seqs_fresh sb hsb s.m hr.m_mem)
 
 end Conv
